@@ -89,6 +89,7 @@ class PathState:
         self.g = {}                # ghost state of models (ledger, db, clock, ...)
         self.assumes = 0
         self.trace = []            # human-readable event trace (scheduling points, model calls)
+        self.keep = []             # terms used as keys of ghost dictionaries (by AST id) are kept alive so ids stay unique
 
 BITS = {'int': 64, 'uint': 64, 'uintptr': 64, 'int64': 64, 'uint64': 64, 'int32': 32, 'uint32': 32,
         'int16': 16, 'uint16': 16, 'int8': 8, 'uint8': 8, 'untyped int': 64, 'untyped rune': 32, 'byte': 8, 'rune': 32}
@@ -202,6 +203,7 @@ class Engine:
         P = self.P
         if key in P.axdone: return
         P.axdone.add(key)
+        P.keep.extend(f for f in formulas if z3.is_expr(f))
         for f in formulas: P.solver.add(f)
     def newstr(self, name):
         """fresh symbolic string constant (not registered as a nondet)"""
@@ -245,6 +247,7 @@ class Engine:
                 if cl >= hl: return self.ssub(self.tostr(ta.arg(1)), cl - hl, ch - hl)
         if cl == 0 and ch is not None and ch == self.known_len(ta): return a
         t = ssub(ta, self.bv(lo), self.bv(hi))
+        self.P.keep.append(ta)
         self.P.g.setdefault('subs', {}).setdefault(ta.get_id(), []).append((self.bv(lo), self.bv(hi), t))
         self.ax(('sub', t.get_id()), slen(t) == self.bv(hi) - self.bv(lo),
                 z3.Implies(z3.And(self.bv(lo) == 0, self.bv(hi) == slen(ta)), t == ta))
